@@ -5,7 +5,7 @@ import vlib
 from vlib import NoVerdict
 
 OWN = {
-    "C04": {"intact", "subset", "unchanged", "stable", "fromPut"},
+    "C04": {"intact", "subset", "unchanged", "stable", "fromPut", "growth"},
     "C05": {"farthest", "frees", "sizeRec", "capacity", "noerr"},
     "C06": {"within", "monotone", "justified", "inrange", "inrangeApi"},
     "C17": {"openOK", "openFromPut", "openSizeRec", "openSubset", "openFarthest", "openPrune", "openRadius"},
